@@ -8,6 +8,7 @@
   tests/test_lang/test_lexer.py::test_useful_number_errors.
 -/
 import PyGqlModel.Token
+import PyGqlModel.Spec.BlockStringSpec
 
 namespace PyGql.Spec.Lexical
 
@@ -145,5 +146,52 @@ def blockStringCharacters : Nat → Text → Option Text
 /-- raw value of a complete block-string lexeme `"""…"""` (before `BlockStringValue`) -/
 def blockStringRaw (l : Text) : Option Text :=
   if [34, 34, 34].isPrefixOf l then blockStringCharacters 0 (l.drop 3) else none
+
+/-! ### tokens, ignored runs and the tiling of a source text (§2.1.6–2.1.7) -/
+
+/-- `lex` is a complete lexeme of token kind `k` and `value` is what the token carries:
+    the lexeme itself for punctuators, names and numbers; the semantic value for strings. -/
+def Lexeme (k : TokKind) (lex value : Text) : Prop :=
+  match k with
+  | .sof | .eof => False
+  | .name => isName lex = true ∧ value = lex
+  | .int => isIntValue lex = true ∧ value = lex
+  | .float => isFloatValue lex = true ∧ value = lex
+  | .string => stringValue lex = some value
+  | .blockString => (blockStringRaw lex).map PyGql.Spec.BlockStringValue = some value
+  | k => punctuator k = some lex ∧ value = lex
+
+/-- first character of a text satisfies `p` (false at the end of the text) -/
+def startsWith (p : Nat → Bool) : Text → Bool
+  | [] => false
+  | c :: _ => p c
+
+/-- maximal munch / look-ahead: what may NOT directly follow a lexeme of kind `k` —
+    a name continues as long as it can; a number is not followed by a digit or a NameStart (test-pinned look-ahead),
+    an IntValue not by `.` either (it would have to be a FloatValue); `""` directly followed by `"` is a block string start -/
+def Follow (k : TokKind) (lex rest : Text) : Prop :=
+  match k with
+  | .name => startsWith isNameCont rest = false
+  | .int => startsWith (fun c => isDigit c || isNameStart c || c == 46) rest = false
+  | .float => startsWith (fun c => isDigit c || isNameStart c) rest = false
+  | .string => lex = [34, 34] → startsWith (· == 34) rest = false
+  | _ => True
+
+/-- a run of Ignored tokens (UnicodeBOM, WhiteSpace, LineTerminator, Comma, Comment) standing before `next`
+    (the rest of the source). A comment is `#` CommentChar* and is maximal: the character after it (in the run or in
+    `next`) is not a CommentChar. -/
+inductive IgnRun (next : Text) : Text → Prop
+  | nil : IgnRun next []
+  | char (c : Nat) (t : Text) : isIgnoredChar c = true → IgnRun next t → IgnRun next (c :: t)
+  | comment (body t : Text) : (∀ x ∈ body, isCommentChar x = true) → startsWith isCommentChar (t ++ next) = false →
+      IgnRun next t → IgnRun next (35 :: (body ++ t))
+
+/-- the source text `s` (a suffix of a source of length `n`) is tiled by ignored runs and the lexemes of `toks`,
+    each token carrying its span and value; the last token is `<EOF>` -/
+inductive Tiles (n : Nat) : Text → List Tok → Prop
+  | eof (ign : Text) : IgnRun [] ign → Tiles n ign [⟨.eof, n, n, textOfString "<EOF>"⟩]
+  | tok (ign lex rest : Text) (k : TokKind) (v : Text) (toks : List Tok) :
+      IgnRun (lex ++ rest) ign → Lexeme k lex v → Follow k lex rest → Tiles n rest toks →
+      Tiles n (ign ++ (lex ++ rest)) (⟨k, n - (lex ++ rest).length, n - rest.length, v⟩ :: toks)
 
 end PyGql.Spec.Lexical
